@@ -297,7 +297,8 @@ static int pad_pkcs1(bn_t m, size_t *p_len, size_t m_len, size_t k_len,
 				}
 				break;
 			case RSA_SIG:
-				/* EB = 00 | 01 | PS | 00 | D. */
+			case RSA_SIG_HASH:
+				/* EB = 00 | 01 | PS | 00 | T | D, the same for a precomputed hash. */
 				id = hash_id(MD_MAP, &len);
 				bn_zero(m);
 				bn_lsh(m, m, 8);
@@ -316,22 +317,8 @@ static int pad_pkcs1(bn_t m, size_t *p_len, size_t m_len, size_t k_len,
 				bn_lsh(m, m, m_len * 8);
 				result = RLC_OK;
 				break;
-			case RSA_SIG_HASH:
-				/* EB = 00 | 01 | PS | 00 | D. */
-				bn_zero(m);
-				bn_lsh(m, m, 8);
-				bn_add_dig(m, m, RSA_PRV);
-
-				*p_len = k_len - 3 - m_len;
-				for (int i = 0; i < *p_len; i++) {
-					bn_lsh(m, m, 8);
-					bn_add_dig(m, m, RSA_PAD);
-				}
-				/* Make room for the zero and hash. */
-				bn_lsh(m, m, 8 * (m_len + 1));
-				result = RLC_OK;
-				break;
 			case RSA_VER:
+			case RSA_VER_HASH:
 				m_len = k_len - 1;
 				bn_rsh(t, m, 8 * m_len);
 				if (bn_is_zero(t)) {
@@ -362,34 +349,6 @@ static int pad_pkcs1(bn_t m, size_t *p_len, size_t m_len, size_t k_len,
 							*p_len = k_len - m_len;
 							bn_mod_2b(m, m, m_len * 8);
 							if (r == 0 && m_len == RLC_MD_LEN && counter >= 8) {
-								result = RLC_OK;
-							}
-						}
-					}
-				}
-				break;
-			case RSA_VER_HASH:
-				m_len = k_len - 1;
-				bn_rsh(t, m, 8 * m_len);
-				if (bn_is_zero(t)) {
-					m_len--;
-					bn_rsh(t, m, 8 * m_len);
-					pad = (uint8_t)t->dp[0];
-					if (pad == RSA_PRV) {
-						int counter = 0;
-						do {
-							counter++;
-							m_len--;
-							bn_rsh(t, m, 8 * m_len);
-							pad = (uint8_t)t->dp[0];
-						} while (pad == RSA_PAD && m_len > 0);
-						/* Remove padding and trailing zero. */
-						*p_len = k_len - m_len;
-						bn_rsh(t, m, 8 * m_len);
-						bn_mod_2b(t, t, 8);
-						if (bn_is_zero(t)) {
-							bn_mod_2b(m, m, m_len * 8);
-							if (m_len == RLC_MD_LEN && counter >= 8) {
 								result = RLC_OK;
 							}
 						}
